@@ -95,8 +95,15 @@ claim("C16",
       "Trusted: rustc MIR; type definitions as seen by rustc; is_protected_field is the protected-field test. Not decided: case/quoting variants of field names, nested path semantics.",
       "table agreement between ADT definitions and match-arm regions (type-directed), def-use flow of field reads into check closures, const-reference who-uses tables", "DESIGN §4 C16")
 
+claim("C13",
+      "Decides the agreement between validation and normalization (cross-variant pairs extracted from the match arms of both), extract coverage of every declared type, that Document stores "
+      "values only after normalization (untyped inputs) and validation on every path, that every recursive component over values is depth-checked on every cycle or entered behind the complexity "
+      "budget, and the accept-edge / index-allocation structure of schema upgrades. The value-level round trip is not decided.",
+      "Trusted: rustc MIR; serde/cbor2 recursion limits for visitor recursion. Not decided: value-level equality after a round trip for all types and values; derive-macro output.",
+      "match-arm pair extraction by dominating variant edges (sibling agreement), must-pass-through on Ok edges, call-graph SCC budget witnesses, operand-provenance slicing", "DESIGN §4 C13")
+
 _pending = "rules for this property are not built yet in this round (see DESIGN §10 order of work); not claimed until they are"
-for pid in ["C13", "C17", "C18", "C19"]:
+for pid in ["C17", "C18", "C19"]:
     NA[pid] = _pending
 NA["C20"] = ("every clause is an algebraic law over runtime multisets of assertions (permutation invariance, monotone score fold, thresholds); "
              "no clause is visible in the shape of the code, so static analysis cannot decide it (DESIGN §6)")
